@@ -15,7 +15,8 @@ Ported from Go 1.26 `bufio.Writer.Write`: while `len(p)` exceeds the free space,
 write `p` straight to the destination (buffer empty) or fill the buffer up and flush it;
 then copy the rest into the buffer.
 -/
-namespace Bclv
+namespace Bclv.Buf
+open Bclv
 
 def wrCap : Nat := 4096
 def scratchSize : Nat := 96
@@ -85,4 +86,4 @@ def dumpW (p : Prog) : Option (List Bytes) := do
   let s ← s.putAll uvEnc p.lfs
   pure s.w.flush.out
 
-end Bclv
+end Bclv.Buf
